@@ -463,6 +463,11 @@ func (r *Report) NumViolations() int { return len(r.violations) }
 
 // Finish writes the evidence file, prints KNOWN-FINDING / VIOLATION lines and returns the exit code.
 func (r *Report) Finish() int {
+	// runs against a scratch copy of the repository (seeded changes) must not overwrite the evidence of /repo
+	verifDir := verifDir
+	if rd := os.Getenv("VERIF_REPO_DIR"); rd != "" && rd != "/repo" {
+		verifDir = filepath.Join(buildDir, "alt-out", filepath.Base(rd))
+	}
 	os.MkdirAll(filepath.Join(verifDir, "evidence"), 0o755)
 	os.MkdirAll(filepath.Join(verifDir, "replay"), 0o755)
 	if old, _ := filepath.Glob(filepath.Join(verifDir, "replay", r.Prop+"-*.json")); r.Tier != "replay" {
